@@ -94,6 +94,8 @@ impl System for Sys {
         let mut n = s.clone();
         let mut viols: Vec<(String, String)> = vec![];
         let pre = &s.mem;
+        // contexts by aliasing class (frag_id % slots): the position inside the implementation is not part of the contract
+        let pre_cls = pre.by_class().unwrap_or_else(|| vec![None; self.slots]);
         let pre_free = sorted(pre.free.clone());
         let nslots = self.slots;
         acc.calls += 1;
@@ -101,7 +103,7 @@ impl System for Sys {
         let mut fail = |cl: &str, txt: String| viols.push((format!("C17|{}", cl), format!("{:?} on {:?}: {}", op, pre, txt)));
         // expected successor (reference), filled per op
         let mut exp_free = pre_free.clone();
-        let mut exp_slots = pre.frags.clone();
+        let mut exp_slots = pre_cls.clone();
         match op {
             Op::ProvisionFresh(_) | Op::ProvisionHeld(_) => {
                 let buf: Vec<u8> = match op {
@@ -199,7 +201,7 @@ impl System for Sys {
                         if c != ctx {
                             fail("new_frag|context-altered", "the returned context is not the one passed".into());
                         }
-                        match &pre.frags[slot] {
+                        match &pre_cls[slot] {
                             Some((_, old_buf)) => {
                                 acc.outcome("new_frag:Ok(replaced)");
                                 if b != *old_buf {
@@ -222,7 +224,7 @@ impl System for Sys {
                     Ok(Err(e)) => {
                         let (k, _) = mem_err_kind(&e);
                         acc.outcome(&format!("new_frag:Err({})", k));
-                        if pre.frags[slot].is_some() {
+                        if pre_cls[slot].is_some() {
                             fail("new_frag|fails-on-occupied-slot", format!("Err({}) although the slot holds a context whose buffer must be reused", k));
                             exp_slots[slot] = None; // whatever happened, resynchronised below
                         } else if !pre.free.is_empty() {
@@ -234,7 +236,7 @@ impl System for Sys {
             Op::TakeFrag(id) => {
                 let slot = *id as usize % nslots;
                 let r = catch(|| m.take_frag(*id));
-                let holds = matches!(&pre.frags[slot], Some((c, _)) if c.frag_id == *id);
+                let holds = matches!(&pre_cls[slot], Some((c, _)) if c.frag_id == *id);
                 match r {
                     Err(p) => {
                         fail(&format!("panic|{}", p.coarse()), format!("panics at {}", p.0));
@@ -244,8 +246,8 @@ impl System for Sys {
                         acc.outcome("take_frag:Ok");
                         let got = (CtxS::from_ctx(&c), b.to_vec());
                         if !holds {
-                            fail("take_frag|returns-context-of-other-id", format!("Ok for id {} but the slot holds {:?}", id, pre.frags[slot].as_ref().map(|x| x.0.frag_id)));
-                        } else if Some(&got) != pre.frags[slot].as_ref() {
+                            fail("take_frag|returns-context-of-other-id", format!("Ok for id {} but the slot holds {:?}", id, pre_cls[slot].as_ref().map(|x| x.0.frag_id)));
+                        } else if Some(&got) != pre_cls[slot].as_ref() {
                             fail("take_frag|not-the-saved-context", "the returned context/buffer differ from what was saved".into());
                         }
                         exp_slots[slot] = None;
@@ -253,7 +255,7 @@ impl System for Sys {
                     }
                     Ok(Err(e)) => {
                         let (k, _) = mem_err_kind(&e);
-                        acc.outcome(&format!("take_frag:Err({}){}", k, if pre.frags[slot].is_some() { ":slot-occupied-by-other-id" } else { ":slot-empty" }));
+                        acc.outcome(&format!("take_frag:Err({}){}", k, if pre_cls[slot].is_some() { ":slot-occupied-by-other-id" } else { ":slot-empty" }));
                         if holds {
                             fail("take_frag|fails-for-saved-id", format!("Err({}) although a context was saved under id {}", k, id));
                         } else if k != "UndefinedId" {
@@ -274,7 +276,7 @@ impl System for Sys {
                     }
                     Ok(Ok(())) => {
                         acc.outcome("save_frag:Ok");
-                        if pre.frags[slot].is_some() {
+                        if pre_cls[slot].is_some() {
                             fail("save_frag|overwrites-occupied-slot", "accepted although the slot is occupied".into());
                         }
                         exp_slots[slot] = Some((c, b));
@@ -282,7 +284,7 @@ impl System for Sys {
                     Ok(Err(e)) => {
                         let (k, _) = mem_err_kind(&e);
                         acc.outcome(&format!("save_frag:Err({})", k));
-                        if pre.frags[slot].is_none() {
+                        if pre_cls[slot].is_none() {
                             fail("save_frag|refused-on-empty-slot", format!("Err({}) although the slot is empty", k));
                         }
                     }
@@ -291,12 +293,16 @@ impl System for Sys {
         }
         let post = MemS::of(&m);
         let opk = format!("{:?}", op).split('(').next().unwrap().to_string();
-        let alias = matches!(op, Op::TakeFrag(id) | Op::NewFrag(id) if matches!(&pre.frags[*id as usize % nslots], Some((c, _)) if c.frag_id != *id));
+        let alias = matches!(op, Op::TakeFrag(id) | Op::NewFrag(id) if matches!(&pre_cls[*id as usize % nslots], Some((c, _)) if c.frag_id != *id));
         let sfx = format!("{}{}", opk, if alias { "|aliasing-id" } else { "" });
         if sorted(post.free.clone()) != sorted(exp_free) {
             fail(&format!("state|free-buffers|{}", sfx), format!("free buffers after the call {:?} differ from the reference bag", post.free.iter().map(|b| hex(b)).collect::<Vec<_>>()));
         }
-        if post.frags != exp_slots {
+        let post_cls = post.by_class();
+        if post_cls.is_none() {
+            fail(&format!("state|two-contexts-in-one-slot|{}", sfx), format!("two contexts of one aliasing class are stored: {:?}", post.frags));
+        }
+        if post_cls.is_some() && post_cls.as_ref() != Some(&exp_slots) {
             fail(&format!("state|slots|{}", sfx), format!("slots after the call {:?} differ from the reference", post.frags));
         }
         for b in post.free.iter().chain(post.frags.iter().flatten().map(|f| &f.1)).chain(n.held_bufs.iter()).chain(n.held_ctx.iter().map(|c| &c.1)) {
